@@ -188,7 +188,16 @@ class _Gen:
         name = self.pick(names)
         argpos = pos or name in ("difflog", "pct", "roc")
         if self.s.get("deep"):
-            arg = self.expr(min(d, 2), argpos, in_pf=True)
+            k_ = self.draw(st.integers(0, 3))
+            lf = lambda: self.leaf(in_pf=True)      # noqa: E731
+            if k_ == 0:
+                arg = ["mul", ["add", lf(), ["div", lf(), ["add", lf(), lf()]]], lf()]
+            elif k_ == 1:
+                arg = ["add", ["pf", self.pick(["shift", "roc", "movsum"]), self.flat(True), self.pick([None, -1, -2])], lf()]
+            elif k_ == 2:
+                arg = ["fn", "exp", ["mul", lf(), ["fn", "sqrt", ["add", lf(), lf()]]]]
+            else:
+                arg = self.expr(3, argpos, in_pf=True)
         else:
             arg = self.flat(argpos)
         k = self.pick(PF_SHIFTS["mov" if name.startswith("mov") else "chg"])
@@ -346,6 +355,8 @@ def model_strategy(draw, allow_pf=True, deep=False):
     items = []
     for q in tvars:
         e = equation(sc_t, q["name"], depth)
+        if deep and not items:
+            e["dyn"][1] = ["add", e["dyn"][1], _Gen(draw, sc_t).pf(False, 2)]
         e["desc"] = _desc(draw)
         items.append({"type": "eq", "kind": "t", "eq": e})
     if fam:
@@ -767,7 +778,7 @@ class Renderer:
             self.subs_mode[name] = mode
             self.subs_defs[name] = "(" + body + ")" if mode == 0 else body
         mode = self.subs_mode[name]
-        self.labels.add("subs")
+        self.labels.add("unsure_subs_in_pf" if c.get("in_pf") else "subs")
         ref = self.cg.of(["$" + name + "$", "$" + name + "$", "$ " + name + " $"]) if self.level else "$" + name + "$"
         natural = 1 if n[0] in ("add", "sub", "neg", "fsum", "sum") else 2 if n[0] in ("mul", "div") else 4 if n[0] == "pow" else 5
         if mode == 0 or (mode == 2 and minp <= natural and minp <= 1) or (c.get("in_pf") and natural == 5):
@@ -858,7 +869,9 @@ class Renderer:
         self.labels.add("for_sum")
         if c["bound"]:
             self.labels.add("for_depth_%d" % (len(c["bound"]) + 1))
-        c2 = dict(c, bound=dict(c["bound"], **{lv: ctl}))
+        b2 = dict(c["bound"])
+        b2[lv] = ctl
+        c2 = dict(c, bound=b2)
         body = sign + self.g() + self.rx(term, 2, c2)
         return self._for_header(ctl, toks) + self.gs() + body + self.gs() + "!end"
 
@@ -918,8 +931,10 @@ class Renderer:
             if n[0] == "num":
                 if repr(n[1]) not in num_c:
                     num_c.append(repr(n[1]))
-            elif not in_pf:
-                if n[0] not in ("ctl", "tab") and not ex.uses_levels(n) and key not in subs_c:
+            elif not in_pf or self.inject.get("kind") == "subs_in_pf":
+                if self.inject.get("kind") == "subs_in_pf" and not in_pf:
+                    pass
+                elif n[0] not in ("ctl", "tab") and not ex.uses_levels(n) and key not in subs_c:
                     subs_c.append(key)
                 if n[0] not in ("ctl", "tab", "var") and not top and key not in term_c:
                     term_c.append(key)
@@ -1551,8 +1566,6 @@ def _unsure_present(case, R):
                     if n[0] == "pf" and (need_depth(n[2], 0) > 1 or ex.has_op(n[2], ("pf",))):
                         return True
         return False
-    if kind == "subs_in_pf":
-        return bool(re.search(r"\b(?:diff|diff_log|difflog|pct|roc|mov_?sum|mov_?avg|mov_?prod|shift)\([^;]*\$", R.source))
     return ("unsure_" + kind) in R.labels
 
 
@@ -1582,9 +1595,9 @@ def _check_unsure(case):
 
 
 SUBCHECKS = [
-    HypSub("translate", _translate_case, _check_translate, _classify_translate, budget={"quick": 1400, "thorough": 40000}),
-    HypSub("preparser_identity", _identity_case, _check_identity, _classify_identity, budget={"quick": 600, "thorough": 10000}),
-    HypSub("unsure", _unsure_case, _check_unsure, _classify_unsure, budget={"quick": 500, "thorough": 10000}),
+    HypSub("translate", _translate_case, _check_translate, _classify_translate, budget={"quick": 3000, "thorough": 60000}),
+    HypSub("preparser_identity", _identity_case, _check_identity, _classify_identity, budget={"quick": 800, "thorough": 12000}),
+    HypSub("unsure", _unsure_case, _check_unsure, _classify_unsure, budget={"quick": 800, "thorough": 12000}),
 ]
 
 
